@@ -130,3 +130,41 @@ package iparser
 //@   oncall base.AtNameHolder.AcceptName
 //@     assert [C01] ownname: arg0 == strReplaceAll(g.ruleName, "\"", "")
 
+// operator callbacks (C01, C02): the operator text of the callback's context goes into the matching field of the node on
+// top of the stack, and into no other field
+//@ func (*GengineParserListener).ExitLogicalOperator
+//@   props C01
+//@   requires g != nil && ctx != nil
+//@   ensures [C01] operator: old(len(g.ParseErrors)) == 0 ==> expr.LogicalOperator == ctxText(ctx.BaseParserRuleContext)
+//@   modifies base.Expression.LogicalOperator
+
+//@ func (*GengineParserListener).ExitNotOperator
+//@   props C01
+//@   requires g != nil && ctx != nil
+//@   ensures [C01] operator: old(len(g.ParseErrors)) == 0 ==> expr.NotOperator == ctxText(ctx.BaseParserRuleContext)
+//@   modifies base.Expression.NotOperator
+
+//@ func (*GengineParserListener).ExitComparisonOperator
+//@   props C01
+//@   requires g != nil && ctx != nil
+//@   ensures [C01] operator: old(len(g.ParseErrors)) == 0 ==> expr.ComparisonOperator == ctxText(ctx.BaseParserRuleContext)
+//@   modifies base.Expression.ComparisonOperator
+
+//@ func (*GengineParserListener).ExitMathPmOperator
+//@   props C01
+//@   requires g != nil && ctx != nil
+//@   ensures [C01] operator: old(len(g.ParseErrors)) == 0 ==> expr.MathPmOperator == ctxText(ctx.BaseParserRuleContext)
+//@   modifies base.MathExpression.MathPmOperator
+
+//@ func (*GengineParserListener).ExitMathMdOperator
+//@   props C01
+//@   requires g != nil && ctx != nil
+//@   ensures [C01] operator: old(len(g.ParseErrors)) == 0 ==> expr.MathMdOperator == ctxText(ctx.BaseParserRuleContext)
+//@   modifies base.MathExpression.MathMdOperator
+
+//@ func (*GengineParserListener).ExitAssignOperator
+//@   props C02
+//@   requires g != nil && ctx != nil
+//@   ensures [C02] operator: old(len(g.ParseErrors)) == 0 ==> expr.AssignOperator == ctxText(ctx.BaseParserRuleContext)
+//@   modifies base.Assignment.AssignOperator
+
